@@ -138,6 +138,9 @@ func L2Leaf(r *R, shape string) (lines []string, feats []string) {
 		for i := 0; i < n; i++ {
 			code = append(code, r.Str("func main() {", "  x := 1", "}", "// 日本語 comment", "return fmt.Sprintf(\"%d\", verylongidentifier_number_one + another)", ""))
 		}
+		if strings.TrimSpace(strings.Join(code, "")) == "" {
+			code[0] = "x := 1" // d2: block string cannot be empty
+		}
 		lines = append(lines, "label: |"+r.Str("go", "js", "python", "sh")+"\n    "+strings.Join(code, "\n    ")+"\n  |")
 	}
 	// fonts
